@@ -32,8 +32,8 @@ ASSUMPTIONS = [
     "the cleaning filter is the element-wise maximum over the extra baselines of the reduced difference to the first baseline, floored at 0",
 ]
 FLOORS = {
-    "quick": {"cleaning_filter_learnt_again": 70, "earlier_result_intact": 300, "probe_object_reused_with_new_content": 60, "baseline_list_untouched": 350, "second_analysis_from_same_baselines": 100, "trace_automaton": 350, "result_is_composition": 220, "baseline_maps_to_zero": 250, "probe_unchanged": 350, "diff_option_identities": 60},
-    "thorough": {"cleaning_filter_learnt_again": 700, "earlier_result_intact": 3000, "probe_object_reused_with_new_content": 600, "baseline_list_untouched": 3500, "second_analysis_from_same_baselines": 1000, "trace_automaton": 3500, "result_is_composition": 2200, "baseline_maps_to_zero": 2500, "probe_unchanged": 3500, "diff_option_identities": 600},
+    "quick": {"cleaning_filter_learnt_again": 70, "restoration_is_configured_method": 30, "earlier_result_intact": 300, "probe_object_reused_with_new_content": 60, "baseline_list_untouched": 350, "second_analysis_from_same_baselines": 100, "trace_automaton": 350, "result_is_composition": 220, "baseline_maps_to_zero": 250, "probe_unchanged": 350, "diff_option_identities": 60},
+    "thorough": {"cleaning_filter_learnt_again": 700, "restoration_is_configured_method": 300, "earlier_result_intact": 3000, "probe_object_reused_with_new_content": 600, "baseline_list_untouched": 3500, "second_analysis_from_same_baselines": 1000, "trace_automaton": 3500, "result_is_composition": 2200, "baseline_maps_to_zero": 2500, "probe_unchanged": 3500, "diff_option_identities": 600},
 }
 DIFFS = ["absolute", "positive", "negative", "plain"]
 
@@ -48,6 +48,7 @@ def shards(tier, seed):
 
 def run_shard(spec, R):
     import skimage
+    import skimage.restoration
 
     import darsia
 
@@ -120,7 +121,8 @@ def run_shard(spec, R):
             red = darsia.MonochromaticReduction(color="gray") if (it["red"] and rgb) else (Spy("reduction", lambda x: x * 0.5) if it["red"] else None)
             bal = darsia.LinearModel(scaling=1.7, offset=0.0) if it["bal"] else None
             offset_bal = False
-            res = darsia.TVD(method="chambolle", weight=0.05, max_num_iter=10, eps=1e-6) if it["res"] else None
+            tvd_method = ["chambolle", "anisotropic bregman", "isotropic bregman"][it["id"] % 3]
+            res = darsia.TVD(method=tvd_method, weight=0.05, max_num_iter=10, eps=1e-6) if it["res"] else None
             mod = darsia.ClipModel(**{"min value": 0.0, "max value": 0.6}) if it["mod"] else None
         else:
             red = Spy("reduction", (lambda x: x @ wred) if rgb else (lambda x: 0.5 * x)) if it["red"] else None
@@ -249,6 +251,18 @@ def run_shard(spec, R):
                     R.check(bool(np.all(outr.img == 0)), "baseline_maps_to_zero", lambda: {**cfg, "what": "probe object overwritten in place with the baseline", "max_abs": float(np.max(np.abs(outr.img)))},
                             key=key, group=grp)
                     R.count("probe_object_reused_with_new_content")
+        # ------------- a real restoration stage is the configured method with the configured parameters (the
+        # documented wrappers of scikit-image's total-variation denoisers)
+        if use_real and it["res"]:
+            xr = rng.random(shp)
+            okt, got_r = R.guarded("restoration", lambda: res(xr.copy()))
+            if okt:
+                if tvd_method == "chambolle":
+                    exp_r = skimage.restoration.denoise_tv_chambolle(xr.copy(), weight=0.05, eps=1e-6, max_num_iter=10)
+                else:
+                    exp_r = skimage.restoration.denoise_tv_bregman(xr.copy(), weight=0.05, max_num_iter=10, eps=1e-6, isotropic=tvd_method.startswith("isotropic"))
+                R.check(np.shape(got_r) == exp_r.shape and bool(np.allclose(np.asarray(got_r, float), exp_r, rtol=1e-12, atol=1e-12)), "restoration_is_configured_method",
+                        lambda: {**cfg, "method": tvd_method, "max_diff": float(np.max(np.abs(np.asarray(got_r, float) - exp_r)))}, group=tvd_method)
         # ------------- the cleaning filter learnt again from another list of baselines handed to find_cleaning_filter
         # (the documented way to exchange it after construction); the next probe is the composition with that filter
         if not use_real and it["id"] % 3 != 0 and not (rgb and not (it["red"] and _reduces(red))):
